@@ -277,6 +277,15 @@ def _note_parts(tier):
                                                                                                          ("a2", 16, 12, "E", None, 5, 1, 1), ("a3", 32, 16, "F", None, 5, 1, 1), ("b1", 32, 16, "D", None, 3, 2, 1),
                                                                                                          ("a4", 50, 14, "G", None, 5, 1, 1), ("b2", 64, 16, "E", None, 3, 2, 1), ("a5", 64, 16, "A", None, 5, 1, 1)],
                                                                                                  measures=[(0, 16), (16, 32), (32, 48), (48, 64), (64, 80)])))
+    # a tie chain of three notes that do NOT follow each other directly (two gaps): sanitising unties all of it
+    def broken_chain():
+        p = G.build_part("P", 4, notes=[("x0", 0, 6, "C", None, 4, 1, 1), ("x1", 8, 6, "C", None, 4, 1, 1), ("x2", 18, 4, "C", None, 4, 1, 1), ("y", 16, 16, "D", None, 4, 2, 1)],
+                         measures=[(0, 16), (16, 32)])
+        byid = {n.id: n for n in p.iter_all(sc.Note)}
+        for a_, b_ in (("x0", "x1"), ("x1", "x2")):
+            byid[a_].tie_next, byid[b_].tie_prev = byid[b_], byid[a_]
+        return p
+    out.append(("tie_chain_of_three_notes_with_gaps", broken_chain))
     # a voice entering after a silence whose length is not one notated value (5 sixteenths; 17 thirty-seconds)
     out.append(("voice_enters_after_a_composite_silence", lambda: G.build_part("P", 8, notes=[("a", 10, 22, "C", None, 4, 1, 1), ("b", 32, 32, "D", None, 4, 1, 1), ("c", 81, 15, "E", None, 4, 1, 1), ("lo", 0, 96, "C", None, 3, 2, 1)],
                                                                               measures=[(0, 32), (32, 64), (64, 96)])))
@@ -360,13 +369,23 @@ def bounded(b):
                     break
             if not ok:
                 continue
+            if name == "tie_chain_of_three_notes_with_gaps":
+                # (what a chain that is not a chain "sounds" is not defined; what is defined is the state afterwards)
+                if op_name == "sanitize_part":
+                    pieces = sorted((n.start.t, n.end.t) for n in part.iter_all(sc.Note) if n.id.startswith("x"))
+                    rows = sorted((int(r["onset_div"]), int(r["onset_div"] + r["duration_div"])) for r in part.note_array() if int(r["pitch"]) == 60)
+                    b.case("normalise/each_note_in_one_measure_chains_contiguous", rows == pieces and all(n.tie_next is None and n.tie_prev is None for n in part.iter_all(sc.Note) if n.id.startswith("x")), case,
+                           "after sanitising, the three notes %r appear in the note array as %r; tie links left: %r" % (pieces, rows, [(n.id, getattr(n.tie_prev, "id", None), getattr(n.tie_next, "id", None)) for n in part.iter_all(sc.Note) if n.id.startswith("x")]))
+                continue
             b.case("normalise/sounding_notes_unchanged", _sounding(part) == before, case, "sounding notes %r, before %r" % (_sounding(part)[:8], before[:8]))
-            if "tie" in op_name:
+            if "tie" in op_name or op_name == "sanitize_part":
                 good, what = True, ""
                 meas = [(m.start.t, m.end.t) for m in part.iter_all(sc.Measure)]
                 for n in part.iter_all(sc.Note, include_subclasses=True):
-                    if n.duration and not any(s <= n.start.t and n.end.t <= e for s, e in meas):
+                    if "tie" in op_name and n.duration and not any(s <= n.start.t and n.end.t <= e for s, e in meas):
                         good, what = False, "note %s [%d,%d] not inside one measure" % (n.id, n.start.t, n.end.t)
+                    if n.tie_prev is not None and n.tie_prev.tie_next is not n:
+                        good, what = False, "note %s names %s as the note it continues, which does not name it as its continuation" % (n.id, n.tie_prev.id)
                     if n.tie_next is not None:
                         m = n.tie_next
                         if m.start.t != n.end.t or (m.step, m.alter, m.octave, m.voice, m.staff) != (n.step, n.alter, n.octave, n.voice, n.staff) or m.tie_prev is not n:
